@@ -894,8 +894,9 @@ class Evaluator:
                 listed = [val for val, _ in targets]
                 # the same (immutable) value was already branched on earlier on this path: stay consistent
                 prev = None
+                dkey = self.imm_norm(d)
                 try:
-                    prev = st.decided.get(d) if label_it else None
+                    prev = st.decided.get(dkey) if label_it else None
                 except TypeError:
                     prev = None
                 if prev is not None:
@@ -926,12 +927,12 @@ class Evaluator:
                     if label_it:
                         try:
                             if val is not None:
-                                s2.decided[d] = ('eq', val)
+                                s2.decided[dkey] = ('eq', val)
                             else:
-                                old_ = s2.decided.get(d)
+                                old_ = s2.decided.get(dkey)
                                 ex = frozenset(listed) | (old_[1] if old_ is not None and old_[0] == 'ne' else frozenset())
                                 if old_ is None or old_[0] == 'ne':
-                                    s2.decided[d] = ('ne', ex)
+                                    s2.decided[dkey] = ('ne', ex)
                         except TypeError:
                             pass
                     if label_it:
@@ -949,6 +950,26 @@ class Evaluator:
             # unknown terminator
             st.events.append(Event('otherterm', idx=len(st.events), val=t.get('dbg'), bb=b))
             return
+
+    def imm_norm(self, v, depth=0):
+        """key under which a branch decision is remembered: loads of never-written fields lose their time stamp"""
+        if not isinstance(v, tuple) or depth > 6:
+            return v
+        if v and v[0] == 'load' and len(v) == 3 and isinstance(v[1], tuple):
+            pl = v[1]
+            ns = []
+            cur = pl
+            while isinstance(cur, tuple) and cur and cur[0] in ('pfield', 'pdown'):
+                if cur[0] == 'pfield':
+                    ns.append(cur[2])
+                cur = cur[1]
+            facts = self.body.facts
+            if ns and cur[0] == 'deref' and facts is not None and all(facts.field_is_immutable(n) for n in ns):
+                return ('load', pl, 'imm')
+            return v
+        if v and v[0] in ('un', 'not', 'bin', 'cast'):
+            return tuple(self.imm_norm(x, depth + 1) for x in v)
+        return v
 
     def emit(self, st, end):
         self.out.append(Path(self.body, st.blocks, st.events, end))
@@ -1417,6 +1438,54 @@ class Facts:
 
     def body(self, key):
         return self.bodies.get(key)
+
+    def immutable_fields(self):
+        """field names that no body of the crate ever assigns, re-discriminates or mutably borrows (directly or as
+        part of a longer place), and whose containing struct is never overwritten as a whole: two loads of such a field
+        through the same pointer see the same value, so two branches on it must agree"""
+        if hasattr(self, '_immf'):
+            return self._immf
+        written = set()
+        allf = set()
+
+        def names(pl):
+            return [el['f'] for el in pl['p'] if isinstance(el, dict) and 'f' in el]
+
+        def whole(pl):
+            # `*p = X` / `&mut *p` handed away: every field of the ADT behind it may change
+            ty = canon(pl.get('ty', '') or '')
+            base = ty.split('<')[0]
+            for an, a in self.adts.items():
+                if canon(an).split('<')[0] == base:
+                    for v in a.get('variants', []):
+                        for f in v.get('fields', []):
+                            written.add(f['name'] if isinstance(f, dict) else f)
+
+        for b in list(self.bodies.values()):
+            for blk in b.blocks:
+                for s in blk['stmts']:
+                    if s['k'] in ('assign', 'setdiscr'):
+                        # a field of an owned local (`let mut f = new(); f.is_stream = true;`) is not a write through a
+                        # pointer, and the loads normalised below are all through pointers
+                        if '*' in s['lhs']['p']:
+                            ns = names(s['lhs'])
+                            written.update(ns)
+                            if not ns:
+                                whole(s['lhs'])
+                    if s['k'] == 'assign' and s['rv']['k'] in ('ref', 'rawptr') and s['rv'].get('bk', s['rv'].get('mt', 'mut')) not in ('shared', 'not', 'const', 'fake'):
+                        ns = names(s['rv']['p'])
+                        written.update(ns)
+                        allf.update(ns)
+                    if s['k'] == 'assign' and s['rv']['k'] in ('ref', 'rawptr'):
+                        allf.update(names(s['rv']['p']))
+                t = blk['term']
+                if t['k'] == 'call':
+                    written.update(names(t['dest']))
+        self._immf = written  # stored as the complement: names known to be written
+        return self._immf
+
+    def field_is_immutable(self, name):
+        return name not in self.immutable_fields()
 
     def keys(self):
         return list(self.bodies.keys())
